@@ -55,6 +55,9 @@ func (e *vfRouteExec) overlapLive() bool {
 func (e *vfRouteExec) enabled() []string {
 	var out []string
 	sc := e.sc
+	if sc.LatePeers && !e.peersUp {
+		out = append(out, "peers")
+	}
 	if sc.Overlap {
 		for _, t := range e.tgt {
 			c := t.cur()
@@ -162,6 +165,9 @@ func (e *vfRouteExec) apply(a string) error {
 		s.incoming[len(s.incoming)-2].breakNow()
 	case "failopenS":
 		e.src[arg(1)-1].failNextOpen = true
+	case "peers":
+		e.peersUp = true
+		e.logf("the proxy instances may connect to each other")
 	case "emit":
 		s := e.src[arg(1)-1]
 		if s.pull() == nil || s.pos >= len(s.script) {
@@ -209,6 +215,7 @@ func (e *vfRouteExec) apply(a string) error {
 // every source had received an ack equal to its final high watermark (0 = never within K).
 func (e *vfRouteExec) closingPhase(wait func(), K int) int {
 	e.closing = true
+	e.peersUp = true
 	e.ungate(wait)
 	// a shard with two live streams (macro scenarios with Overlap): the old one ends first - what is sent into an
 	// overlap is the subject of C04/C08, not of the closing phase
@@ -286,6 +293,9 @@ func (e *vfRouteExec) checkEnd(rounds int) {
 			}
 			st = append(st, fmt.Sprintf("source %d: final high %d, last ack %d", s.idx, s.curHigh, last))
 		}
+		if bl := vrt.BlockedLockers(); len(bl) > 0 {
+			st = append(st, fmt.Sprintf("goroutines waiting for a lock: %v", bl))
+		}
 		e.violate("C03", "final-ack-never-arrives", "after the fair closing phase (every target acknowledged everything, sources kept sending their watermark): "+strings.Join(st, "; "))
 	}
 	if e.faults == 0 {
@@ -311,6 +321,7 @@ func vfRunRoute(t *testing.T, job *vfRouteJob) (out vfRouteOut) {
 			}
 		}()
 		synctest.Test(t, func(t *testing.T) {
+			vrt.ResetLocks()
 			e := vfNewRouteExec(job.Scenario)
 			wait := synctest.Wait
 			wait()
@@ -348,6 +359,9 @@ func vfRunRoute(t *testing.T, job *vfRouteJob) (out vfRouteOut) {
 			if job.Trace || len(e.viol) > 0 {
 				out.Events = e.events
 			}
+			// goroutines parked on a lock nobody will release can never finish: make them exit so the bubble can end
+			vrt.AbandonBlockedLockers()
+			wait()
 		})
 	}()
 	<-done
@@ -408,7 +422,10 @@ func vfRouteBFS(t *testing.T, pool *vrt.Pool, sc *vfRouteScenario, maxDepth int,
 			st.HarnessErrors = append(st.HarnessErrors, "bad worker output: "+r.Out)
 			return nil, false
 		}
-		if out.Err != "" {
+		// a goroutine of the code under test that stays blocked after everything was cancelled makes the bubble end with
+		// "blocked goroutines remain"; the oracles of that execution have run by then, so its violations count
+		leftover := strings.Contains(out.Err, "blocked goroutines remain") && len(out.Violations) > 0
+		if out.Err != "" && !leftover {
 			st.HarnessErrors = append(st.HarnessErrors, fmt.Sprintf("%s on %v", out.Err, path))
 			return nil, false
 		}
@@ -417,6 +434,9 @@ func vfRouteBFS(t *testing.T, pool *vrt.Pool, sc *vfRouteScenario, maxDepth int,
 				res.Violate(vfSigPrefix+v.Signature, fmt.Sprintf("scenario %s, actions %v: %s\ntrace:\n  %s", sc.Name, path, v.Detail, strings.Join(out.Events, "\n  ")),
 					map[string]any{"scenario": sc, "path": path, "closing": closing})
 			}
+		}
+		if leftover {
+			return nil, false
 		}
 		if out.Rounds > st.MaxRounds {
 			st.MaxRounds = out.Rounds
@@ -499,7 +519,7 @@ func vfScenarios(tier string, faults bool) []*vfRouteScenario {
 	add("1x2-multi", 1, 2, [][]vfBatch{{
 		{IDs: []int64{10, 11}, Tgt: []int{1, 2}, High: 12},
 		{IDs: []int64{14}, Tgt: []int{2}, High: 20},
-	}}, 1, 1)
+	}}, 1, map[bool]int{true: 1, false: 0}[thorough])
 	// a target that never gets a task from this source
 	add("1x2-idle-target", 1, 2, [][]vfBatch{{
 		{IDs: []int64{10}, Tgt: []int{1}, High: 11},
@@ -526,6 +546,13 @@ func vfScenarios(tier string, faults bool) []*vfRouteScenario {
 		{IDs: []int64{11}, Tgt: []int{2}, High: 12},
 	}}, 1, 0)
 	out[len(out)-1].Proxies, out[len(out)-1].PlaceT, out[len(out)-1].PlaceS = 2, []int{0, 1}, []int{0}
+	// the peer that owns target shard 2 is slow to connect: the owner is known, the intra-proxy stream is not there yet,
+	// and virtual time passes (the forwarder's own 2 s wait for the peer expires)
+	add("1x2-late-peer", 1, 2, [][]vfBatch{{
+		{IDs: []int64{10}, Tgt: []int{2}, High: 11},
+		{IDs: []int64{11}, Tgt: []int{1}, High: 12},
+	}}, 0, 3)
+	out[len(out)-1].Proxies, out[len(out)-1].PlaceT, out[len(out)-1].PlaceS, out[len(out)-1].LatePeers = 2, []int{0, 1}, []int{0}, true
 	// three instances: target shard 2 reconnects to another instance (n3) while its old stream on n2 is still alive
 	// (both instances claim the shard for a while), then the old stream ends
 	add("1x2-target-moves-between-proxies", 1, 2, [][]vfBatch{{
@@ -558,6 +585,22 @@ func vfScenarios(tier string, faults bool) []*vfRouteScenario {
 	}}, 1, 0)
 	out[len(out)-1].ChanCap = 1
 	out[len(out)-1].Gated = []int{2}
+	// back-pressure: the only target is slow (accepts a message only on accept:1), its hand-off channel holds one
+	// message, so from the third batch on the source's receive loop waits in the hand-off while virtual time passes
+	add("1x1-back-pressure", 1, 1, [][]vfBatch{{
+		{IDs: []int64{10}, Tgt: []int{1}, High: 11},
+		{IDs: []int64{11}, Tgt: []int{1}, High: 12},
+		{IDs: []int64{12}, Tgt: []int{1}, High: 13},
+	}}, 0, 2)
+	out[len(out)-1].ChanCap = 1
+	out[len(out)-1].Gated = []int{1}
+	// two source shards hold a pending watermark when the only target shard registers late; its hand-off channel holds one
+	// message (the replay of pending watermarks to a new target must not wait for room)
+	add("2x1-late-target-queue1", 2, 1, [][]vfBatch{
+		{{IDs: []int64{10}, Tgt: []int{1}, High: 11}},
+		{},
+	}, 1, 0)
+	out[len(out)-1].ChanCap = 1
 	// small ring: growth while wrapped, discard across the wrap point
 	add("1x1-ring3", 1, 1, [][]vfBatch{{
 		{IDs: []int64{10}, Tgt: []int{1}, High: 11},
